@@ -962,7 +962,10 @@ brk("C03", "_apply_pt_mpos takes the future bond from axis 0", "M1", _multi(
 brk("C03", "PT-TEBD feeds the system leg into the output axis", "M1", _multi(
     _sub(TEBDB, "                pt[2] ^ self._phys_es[site]\n                self._pt_es[site] = pt[1]\n                self._phys_es[site] = pt[3]",
          "                pt[3] ^ self._phys_es[site]\n                self._pt_es[site] = pt[1]\n                self._phys_es[site] = pt[2]")))
-brk("C03", "file compute_caps swaps trace_in and trace_out", "M1", _sub(
+brk("C03", "in-memory compute_caps swaps trace_in and trace_out", "M1", _sub(
+    PT, "                ten[2] ^ trace_in[0]\n                ten[3] ^ trace_out[0]\n                new_cap = ten @ last_cap @ trace_in @ trace_out\n            caps.insert",
+    "                ten[3] ^ trace_in[0]\n                ten[2] ^ trace_out[0]\n                new_cap = ten @ last_cap @ trace_in @ trace_out\n            caps.insert"))
+ok("C03", "file compute_caps closes the two system legs with the plain trace in the other order", _sub(
     PT, "            ten[2] ^ trace_in[0]\n            ten[3] ^ trace_out[0]\n            new_cap = ten @ last_cap @ trace_in @ trace_out\n            self.set_cap_tensor",
     "            ten[3] ^ trace_in[0]\n            ten[2] ^ trace_out[0]\n            new_cap = ten @ last_cap @ trace_in @ trace_out\n            self.set_cap_tensor"))
 brk("C03", "rank-3 expansion onto the bond legs", "M1", _sub(
@@ -1493,6 +1496,37 @@ brk("C20", "Hamiltonian converted with copy=False", "A8", _sub(
     SY, "        tmp_hamiltonian = np.array(hamiltonian, dtype=NpDtype)", "        tmp_hamiltonian = np.array(hamiltonian, dtype=NpDtype, copy=False)"))
 
 # ---------------------------------------- persistent pool that is shut down (C10 / C19)
+# ---------------------------------------- trace vectors and transforms (C03 M7 / M8)
+brk("C03", "trace_out pushed through the transposed transform", "M8", _sub(
+    PT, "            self._trace_out = self._transform_out @ self._trace", "            self._trace_out = self._trace @ self._transform_out"))
+brk("C03", "trace_in pushed through the transposed transform", "M8", _sub(
+    PT, "            self._trace_in = self._trace @ self._transform_in", "            self._trace_in = self._transform_in @ self._trace"))
+ok("C03", "trace vectors written with np.dot", _multi(
+    _sub(PT, "            self._trace_out = self._transform_out @ self._trace", "            self._trace_out = np.dot(self._transform_out, self._trace)"),
+    _sub(PT, "            self._trace_in = self._trace @ self._transform_in", "            self._trace_in = np.dot(self._transform_in.T, self._trace)")))
+brk("C03", "file-backed caps close transformed tensors with the transformed trace vectors", "M7", _sub(
+    PT, "            trace_in = tn.Node(self._trace)\n            trace_out = tn.Node(self._trace)\n",
+    "            trace_in = tn.Node(self._trace_in)\n            trace_out = tn.Node(self._trace_out)\n"))
+
+# ---------------------------------------- transposition of the stored superoperators (C05 E2 / C02 S6)
+brk("C05", "PT-TEMPO stores transform_in without the transpose", "E2", _sub(
+    PTT, """            transform_in = left_right_super(unitary.conjugate().T,
+                                            unitary).T""", """            transform_in = left_right_super(unitary.conjugate().T,
+                                            unitary)""", count=1))
+brk("C02", "PT-TEMPO hands over the TEMPO back end's pair (no transposes, swapped)", "S6", _multi(
+    _sub(PTT, """            transform_in = left_right_super(unitary.conjugate().T,
+                                            unitary).T
+            transform_out = left_right_super(unitary,
+                                             unitary.conjugate().T).T""", """            transform_in = left_right_super(unitary,
+                                            unitary.conjugate().T)
+            transform_out = left_right_super(unitary.conjugate().T,
+                                             unitary)""", count=1)))
+brk("C05", "TEMPO back end rotates out with the untransposed superoperator", "E2", _sub(
+    TB, "                tmp = np.dot(tmp, self._super_u.T)", "                tmp = np.dot(tmp, self._super_u)"))
+
+# ---------------------------------------- raw tensors through a file (C05 E5)
+brk("C05", "import copies transformed tensors next to the transforms", "E5", _sub(
+    PT, "                mpo = pt_file.get_mpo_tensor(step, transformed=False)", "                mpo = pt_file.get_mpo_tensor(step)"))
 ok("C11", "Gibbs: remaining steps via a temporary", _sub(
     TE, "        num_step = max(\n            0, self._parameters.n_steps - 1 - self._backend_instance.step)",
     "        done = self._backend_instance.step\n        last = self._parameters.n_steps - 1\n        num_step = max(0, last - done)"))
